@@ -10,7 +10,9 @@ package hctx
 
 // *plush.userFunction is unexported and allocated only by the evaluator: context data never holds a
 // typed nil pointer of that type (assumption about context data, listed in the evidence).
+//@ spec ctxvalue(ctx hctx.Context, key any) any
 //@ iface hctx.Context.Value(ctx, key) r
+//@ ensures r == ctxvalue(ctx, key)
 //@ ensures is(r, "*plush.userFunction") ==> pay(r) != 0
 //@ assigns nothing
 
@@ -23,13 +25,20 @@ package hctx
 //@ assigns mapsof("map[string]interface{}"), fresh
 
 //@ iface hctx.HelperContext.HasBlock(h) r
+//@ ensures r == hasblock(h)
 //@ assigns nothing
 
 //@ iface hctx.HelperContext.Block(h) s, err
+//@ ensures err == nil ==> trusted(s)
+//@ ensures err != nil ==> s == ""
 //@ assigns mapsof("map[string]interface{}"), fresh
 
 //@ iface hctx.HelperContext.BlockWith(h, c) s, err
+//@ ensures err == nil ==> trusted(s)
+//@ ensures err != nil ==> s == ""
 //@ assigns mapsof("map[string]interface{}"), fresh
 
 //@ iface hctx.HelperContext.Render(h, in) s, err
+//@ ensures err == nil ==> trusted(s)
+//@ ensures err != nil ==> s == ""
 //@ assigns mapsof("map[string]interface{}"), fresh
